@@ -176,16 +176,22 @@ func TestTCP(t *testing.T) {
 		}
 		return
 	}
-	r.Rule("TCP: command sequences from per-protocol grammars (ftp, smtp incl. DATA/BDAT, redis, memcached, telnet, http keep-alive, elasticsearch, eos, ethereum, docker, cwmp, ldap) delivered through the real server on the in-memory listener as a single write (pipelined), lock-step, k random cuts and 1-byte dribble; oracle = expected event list computed from the generated command list (reference) AND equality with the single-write event list (metamorphic); non-trivial = >=2 commands and (a cut or >=2 requests in one write); distinct by wire bytes + delivery")
-	r.Rapid(t, "TestTCP", r.Pick(450, 2500), func(rt *rapid.T) {
-		service := rapid.SampledFrom(svc.TCPServices).Draw(rt, "service")
-		d := svc.GenTCP(rt, service)
+	r.Rule("TCP: command sequences from per-protocol grammars (ftp, smtp incl. DATA/BDAT, redis, memcached, telnet, http keep-alive, elasticsearch, eos, ethereum, docker, cwmp, ldap) plus telnet / ftp / memcached / smtp dialogs with 2-, 3- and 4-byte UTF-8 characters in their text fields, delivered through the real server on the in-memory listener as a single write (pipelined), lock-step, k random cuts (half of them inside a multi-byte character when there is one) and 1-byte dribble; oracle = expected event list computed from the generated command list (reference) AND equality with the single-write event list (metamorphic); non-trivial = >=2 commands and (a cut or >=2 requests in one write); distinct by wire bytes + delivery")
+	r.Rapid(t, "TestTCP", r.Pick(560, 3200), func(rt *rapid.T) {
+		service := rapid.SampledFrom(tcpKinds).Draw(rt, "service")
+		d := genTCP(rt, service)
 		mode := rapid.SampledFrom([]string{"single", "lockstep", "cuts", "cuts", "dribble"}).Draw(rt, "mode")
 		var cuts []int
 		n := len(d.Stream())
 		if mode == "cuts" && n > 1 {
 			k := rapid.IntRange(1, 4).Draw(rt, "ncuts")
+			inChar := inCharCuts(d.Stream())
 			for i := 0; i < k; i++ {
+				if len(inChar) > 0 && rapid.Bool().Draw(rt, "cut-in-char") {
+					// boundary-biased: a cut inside a multi-byte character
+					cuts = append(cuts, rapid.SampledFrom(inChar).Draw(rt, "cut"))
+					continue
+				}
 				cuts = append(cuts, rapid.IntRange(1, n-1).Draw(rt, "cut"))
 			}
 		}
@@ -229,9 +235,9 @@ func TestEveryCut(t *testing.T) {
 		return
 	}
 	r.Rule("every single cut point of the byte stream (exhaustive per generated dialog, streams <= 500 bytes)")
-	r.Rapid(t, "TestEveryCut", r.Pick(12, 120), func(rt *rapid.T) {
-		service := rapid.SampledFrom(svc.TCPServices).Draw(rt, "service")
-		d := svc.GenTCP(rt, service)
+	r.Rapid(t, "TestEveryCut", r.Pick(14, 150), func(rt *rapid.T) {
+		service := rapid.SampledFrom(tcpKinds).Draw(rt, "service")
+		d := genTCP(rt, service)
 		n := len(d.Stream())
 		if n > 500 || n < 2 {
 			rt.Skip("stream too long for the exhaustive cut sweep")
